@@ -80,6 +80,31 @@ func runC16(c *ShardCtx) {
 						c.Report(Violation{Desc: fmt.Sprintf("Stats.ExprCnt=%d but the parse evaluates %d expressions (reference count): evaluations escape the budget", cnt, ref.Evals), Grammar: text, Gen: gc.gen.String(), Input: string(in), InputHex: hexOf(in), Opts: optsString(&o0)}, "")
 					}
 				}
+				// a Stats object re-used from earlier parses (its ExprCnt already above the budget):
+				// the call must still return and evaluate at most n expressions itself
+				if !os.Memoize && (runaway || cnt >= 2) {
+					n := 1
+					if !runaway && cnt > 2 {
+						n = cnt - 1
+					}
+					if n > cap {
+						n = cap
+					}
+					o := os
+					o.MaxExpr, o.StatsPreload, o.TickCap = uint64(n), uint64(n)+3, 5000
+					obs := b.Run(in, &o, nil)
+					c.Res.Evaluations++
+					desc := ""
+					switch {
+					case obs.Diverged:
+						desc = fmt.Sprintf("Parse with MaxExpressions(%d) and a re-used Stats object (ExprCnt %d) did not return (tick cap %d exceeded)", n, o.StatsPreload, o.TickCap)
+					case obs.ExprCnt-o.StatsPreload > uint64(n)+1:
+						desc = fmt.Sprintf("MaxExpressions(%d) with a re-used Stats object (ExprCnt %d): %d expressions evaluated in this call", n, o.StatsPreload, obs.ExprCnt-o.StatsPreload)
+					}
+					if desc != "" {
+						c.Report(Violation{Desc: desc, Grammar: text, Gen: gc.gen.String(), Input: string(in), InputHex: hexOf(in), Opts: optsString(&o), Diffs: []string{desc}}, "")
+					}
+				}
 				top := cnt
 				if runaway || top > cap {
 					top = cap
